@@ -116,7 +116,7 @@ class Engine(object):
             self.classes.update(getattr(mod, "CLASSES", {}))
             self.inline |= set(getattr(mod, "INLINE", ()))
             self.lemmas.update(getattr(mod, "LEMMAS", {}))
-        if self.timeout_ms > 10000:
+        if self.timeout_ms >= 60000:
             # thorough tier: contracts may name a larger finite domain (more notes, entries, bars) for their case split
             for k, v in self.contracts.items():
                 if v.get("split_thorough"):
@@ -1093,6 +1093,13 @@ class Engine(object):
         if splits and split_index is not None:
             split_expr = splits[split_index]
         work = [[]]
+        deco = [ast.unparse(d) for d in getattr(fref.node, "decorator_list", [])
+                if ast.unparse(d).split(".")[-1] not in ("property", "setter", "staticmethod", "classmethod")]
+        if deco:
+            # what runs is the decorator's wrapper, not (only) this body: the body's proof says nothing about it
+            undecided.append(("unsupported", "the function is wrapped by decorator(s) %s: the contract is about the wrapped "
+                              "function as callers see it, which the generator cannot see through" % ", ".join(deco)))
+            work = []
         while work:
             decisions = work.pop()
             npaths += 1
